@@ -671,3 +671,5 @@ def make(t):
 
 
 SUBS = [make(t) for t in ("emg", "platCal", "platData")]
+from ..core import optimised_child_sub  # noqa: E402
+SUBS.append(optimised_child_sub("C15", ["emg", "platCal", "platData"]))
